@@ -15,7 +15,7 @@ RULE = (
     "through globals() and sys.modules; cycles allowed, recursion bounded by a decreasing argument) and a history of 1-5 edits (literal, nested-code constant, positional default, "
     "keyword-only default, set/tuple member, variable rebinding, in-place list/dict mutation, call-edge retarget, hide/unhide a call, explicit version bump), each delivered by restart "
     "(fresh forked process importing the edited files against the same persistent store) or in-process (re-executing the definition as a cell / rebinding / mutating in the running process). "
-    "After every edition all automatically-versioned memento functions are called twice with two arguments (directly, through partial() or force_local()). Oracle: the same edition "
+    "After every edition all automatically-versioned memento functions are called twice with two arguments (directly, through partial() or force_local(), or through two or three chained modifiers). Oracle: the same edition "
     "(same files and same cell sequence) executed in a fresh process with the decorator replaced by the identity. A memoized call must return the reference value or raise "
     "UndeclaredDependencyError. Non-trivial = at least one applied edit changes the reference result of a root memoized before it; distinct by (program, history)."
 )
@@ -189,7 +189,7 @@ def strategy(thorough):
         st.sampled_from(["inproc", "inproc", "restart"]),
         st.lists(st.builds(lambda e, dl: {"edit": e, "delivery": dl}, ed, st.sampled_from(["restart", "inproc"])), max_size=1))
     hist = st.integers(0, 2).flatmap(lambda i: pair if i == 0 else hist)
-    pres = st.sampled_from(["direct", "direct", "partial", "force_local"])
+    pres = st.sampled_from(["direct", "direct", "direct", "partial", "force_local", "partial+force_local", "ctx+partial", "force_local+ignore+partial"])
     general = st.builds(lambda p, h, pres: {"program": p, "history": h, "pres": pres, "args": [1, 2]},
                         progs.program_strategy(max_fns=7 if thorough else 5, allow_fdef=True, allow_dictset=True), hist, pres)
     # value-heavy programs: several variables holding few distinct values, all read by the root; the history gives
